@@ -16,6 +16,10 @@ func main() {
 	start := time.Now()
 	var r *report.Result
 	switch c.Prop {
+	case "C05":
+		r = lang.C05(c)
+	case "C16":
+		r = lang.C16gen(c)
 	case "C14":
 		r = lang.C14(c)
 	case "C15":
